@@ -1,9 +1,9 @@
 SPECIFICATION GSpec
 CONSTANTS
   N = 32
-  Brackets <- BracketsK5
-  TolSettings <- TolsAll
-  FVals <- F4
+  Brackets <- BracketsK5s
+  TolSettings <- TolsQ
+  FVals <- F124
   DVals <- D2
   MaxIters = 14
   Degenerate = TRUE
